@@ -756,3 +756,78 @@ def C13(ck):
     ck.assumptions += ['exploration: inverse-pair correctness for all inputs is not decided']
     for f in (base + '.ndjson', base + '.sum'):
         os.remove(f)
+
+
+# ------------------------------------------------------------------------------------------------
+LEVEL['C12'] = 'exploration'
+
+
+def C12(ck):
+    from concurrent.futures import ThreadPoolExecutor
+    T = thorough(ck)
+    # (a) framing model: the decoder's table equals the encoder's iff the scaled table sums to the scale
+    rares = (0, 5, 36, 100, 200, 254) if T else (0, 5, 36, 200)
+    hists = ['<<%s>>' % ','.join(['1'] * r + [str(b + i) for i in range(d)]) for r in rares for d in (1, 2, 3) for b in (10, 136, 1000)
+             if r + d >= 2]
+    lens = '{0,1,31,32,33,16383,16384,16385,32767,32768,32769,40000,65536}'
+    runs = []
+    for codec, lr in (('ANS0', 8), ('ANS0', 12), ('RANGE', 8), ('RANGE', 12), ('HUFFMAN', 11)):
+        runs.append(('fixed', codec, lr, 'SyncIffValid TablesAgree Covers', True))
+    runs.append(('asis', 'RANGE', 8, 'TablesAgree', False))
+
+    def one(r):
+        mc = '---- MODULE MC_E ----\nEXTENDS KzEntropyFrame\nMCLens == %s\nMCHists == {%s}\n====\n' % (lens, ', '.join(hists))
+        c = ('CONSTANTS\n Impl = "%s"\n Codec = "%s"\n Lens <- MCLens\n Hists <- MCHists\n LogRange = %d\nSPECIFICATION Spec\nINVARIANTS %s\n'
+             'CHECK_DEADLOCK FALSE\n') % (r[0], r[1], r[2], r[3])
+        return kzv.tlc('MC_E', c, workers=2, timeout=3000, extra_files={'MC_E.tla': mc}, heap='2g')
+    with ThreadPoolExecutor(max_workers=6) as ex:
+        results = list(ex.map(one, runs))
+    for r, res in zip(runs, results):
+        if r[4]:
+            ck.add_tlc(res, 'KzEntropyFrame %s %s lr=%d' % r[:3])
+            if not res.ok:
+                raise kzv.ToolFailure('KzEntropyFrame fails its own check: ' + res.out[-2000:])
+        else:
+            ck.cov['selftest_asis'] = {'violated': res.violated}
+            if not res.violated:
+                raise kzv.ToolFailure('vacuity self-test: as-is tables always agree')
+    # (b) the real codecs on the case space, judged by Trace_Entropy
+    kzh = kzv.build_harness()
+    base = os.path.join(kzv.BUILD, 'tlc', 'ent_%d' % os.getpid())
+    cmd = [kzh, 'entropy', '-n', str(8000 if T else 900), '-seed', str(ck.seed), '-out', base + '.ndjson', '-sum', base + '.sum', '-par', str(kzv.NCPU)]
+    if T:
+        cmd.append('-thorough')
+    rc, so, se, dt = kzv.run(cmd, timeout=5 * 3600)
+    if rc != 0:
+        raise kzv.ToolFailure('entropy driver failed: ' + se[-1500:])
+    summ = json.load(open(base + '.sum'))
+    res = kzv.validate_trace('Trace_Entropy', base + '.ndjson', timeout=1800)
+    if res.error or res.violated:
+        raise kzv.ToolFailure('Trace_Entropy failed: %s %s\n%s' % (res.error, res.violated, res.out[-1500:]))
+    tr = kzv.read_ndjson(base + '.ndjson')
+    ck.cov['states'] += res.distinct
+    ck.cov['transitions'] += res.generated
+    seen = set()
+    for e, pred in _violations_from(res.out, tr):
+        key = (pred, e['codec'], e['len'] if e['len'] < 64 else e['fam'])
+        if key in seen:
+            continue
+        seen.add(key)
+        ck.violation({'kind': 'entropy', 'pred': pred, 'codec': e['codec'], 'len': e['len'], 'fam': e['fam'], 'msg': e.get('msg', '')[:120],
+                      'encBits': e['encBits'], 'decBits': e['decBits']},
+                     {'cmd': 'entropy', 'case': json.loads(e['desc']), 'event': {k: v for k, v in e.items() if k != 'desc'}}, name='entropy')
+    ck.cov['evaluations'] += summ['runs']
+    ck.cov['distinct_nontrivial'] += summ['distinct']
+    ck.cov['traces_validated_against_impl'] += summ['runs']
+    ck.cov['per_codec'] = summ['byMode']
+    for s in summ['samples'][:3]:
+        ck.sample({'entropy_case': s})
+    ck.cov['rule'] = ('KzEntropyFrame.tla (raw threshold, chunk loop, header carrying all frequencies but the first) model-checked: encoder and decoder '
+                      'tables agree iff the scaled table sums to the scale (links C16 to C12); then the 9 real codecs over length classes '
+                      '{0,1,..,31,32,33,63,64,65,...,chunk-1,chunk,chunk+1,2*chunk+7} (chunk = 16 KiB / 32 KiB; 4 MiB in thorough) x data families (19 shapes, '
+                      'alphabets of 1..256 symbols, r rare + d dominant symbols) x bit alignment of the block in the stream; a 64-bit sentinel follows '
+                      'the block; Trace_Entropy.tla judges: decoded = original, bits read = bits written, sentinel intact. '
+                      'non-trivial = distinct (codec, length, family, alignment) with length > 32')
+    ck.assumptions += ['exploration: the arithmetic of the coders is not modelled']
+    for f in (base + '.ndjson', base + '.sum'):
+        os.remove(f)
